@@ -29,6 +29,8 @@ import (
 
 	vhpxws "github.com/gorilla/websocket"
 
+	agentconfig "github.com/andydunstall/piko/agent/config"
+	"github.com/andydunstall/piko/agent/reverseproxy"
 	"github.com/andydunstall/piko/pkg/log"
 	"github.com/andydunstall/piko/server/cluster"
 	"github.com/andydunstall/piko/server/config"
@@ -109,6 +111,9 @@ type vhpxAccessLog struct {
 }
 
 type vhpxClusterSpec struct {
+	// ViaAgent: every upstream is a real piko agent reverse proxy (agent/reverseproxy.Server) in front of the scripted
+	// service, as with `piko agent http`: client -> node(s) -> agent -> service
+	ViaAgent  bool           `json:"via_agent"`
 	ID        string         `json:"id"`
 	TimeoutMs int            `json:"timeout_ms"`
 	AccessLog *vhpxAccessLog `json:"access_log"`
@@ -469,6 +474,7 @@ type vhpxUpstream struct {
 	beh   string
 	delay time.Duration
 	ln    net.Listener
+	agent net.Listener // when set, Dial reaches the agent's reverse proxy, which forwards to ln
 }
 
 var _ upstream.Upstream = &vhpxUpstream{}
@@ -478,6 +484,9 @@ func (u *vhpxUpstream) Forward() bool      { return false }
 func (u *vhpxUpstream) Dial() (net.Conn, error) {
 	if u.beh == "dialfail" {
 		return nil, errors.New("vhpx: dial refused")
+	}
+	if u.agent != nil {
+		return net.Dial("tcp", u.agent.Addr().String())
 	}
 	return net.Dial("tcp", u.ln.Addr().String())
 }
@@ -684,6 +693,18 @@ func (c *vhpxCluster) run() {
 				ln:    c.listen(),
 			}
 			go u.serve()
+			if spec.ViaAgent && us.Beh != "dialfail" {
+				aconf := agentconfig.ListenerConfig{EndpointID: u.ep, Addr: u.ln.Addr().String(), Protocol: agentconfig.ListenerProtocolHTTP}
+				aconf.AccessLog.Disable = true
+				aconf.AccessLog.Level = "info"
+				aconf.HTTPClient.MaxIdleConns = 0
+				asrv := reverseproxy.NewServer(aconf, reverseproxy.NewMetrics("vhpx"), log.NewNopLogger())
+				u.agent = c.listen()
+				go func(ln net.Listener) {
+					defer c.guard("agent serve")
+					_ = asrv.Serve(ln)
+				}(u.agent)
+			}
 			mgr.AddConn(u)
 		}
 
